@@ -173,6 +173,15 @@ macro_rules! isaac_generate {
             band!(generate_1, 64, 128);
             band!(generate_2, 128, 192);
             band!(generate_3, 192, 256);
+            // bands of 32 steps (ISAAC-64's 64-step bands ran past 57 min)
+            band!(generate_h0, 0, 32);
+            band!(generate_h1, 32, 64);
+            band!(generate_h2, 64, 96);
+            band!(generate_h3, 96, 128);
+            band!(generate_h4, 128, 160);
+            band!(generate_h5, 160, 192);
+            band!(generate_h6, 192, 224);
+            band!(generate_h7, 224, 256);
             band!(generate, 0, 256);
             // quick-tier detector: the first 6 steps only (the step code is the
             // same for all steps; a change in it shows here)
